@@ -248,6 +248,28 @@ struct Engine
         {
             if (!m[t].present || !m[t].unspec || m[t].moved) continue;
             begin_op();
+            {
+                // whatever it holds, its begin/end describe it: an empty one has data_begin() == data_end(), and it can be copied
+                const Vec& cv = *v[t];
+                const auto db = reinterpret_cast<uintptr_t>(cv.data_begin()), de = reinterpret_cast<uintptr_t>(cv.data_end());
+                if (cv.size() == 0 && db != de)
+                    report("VAL", "values", "data-range-after-fault", "after a failed assignment size() == 0 but data_end() - data_begin() == %ld",
+                           static_cast<long>(de - db));
+                if (de < db || de - db > cv.memory_consumption())
+                    report("VAL", "values", "data-range-after-fault", "after a failed assignment data_end() - data_begin() == %ld with memory_consumption() == %zu",
+                           static_cast<long>(de - db), cv.memory_consumption());
+#if HAVE_COPY
+                else if constexpr (COPYABLE)
+                {
+                    L().in_lib = true;
+                    Vec tmp(cv);
+                    L().in_lib = false;
+                    if (tmp.size() != cv.size()) report("VAL", "values", "copy-after-fault", "a copy of the operand of a failed assignment has another size()");
+                    L().in_lib = true;
+                }
+                L().in_lib = false;
+#endif
+            }
             LIB(v[t]->clear());
             const std::size_t cap = v[t]->capacity();
             auto lf = lib_fixed_sizes(std::as_const(*v[t]), std::make_index_sequence<LS::NF>{});
@@ -1208,6 +1230,7 @@ struct Engine
         std::size_t size[2]{0, 0};
         long block[2]{-1, -1};
         std::size_t consumed[2]{0, 0};  // bytes of the data block as the allocator recorded them
+        std::size_t mc[2]{0, 0};        // memory_consumption() as the vector reports it
         std::map<std::tuple<int, int, int, int>, uintptr_t> obj;  // (slot, elem id, field, pos) -> address
         std::string canon;
     };
@@ -1224,6 +1247,7 @@ struct Engine
             s.data_begin[t] = reinterpret_cast<uintptr_t>(vv.data_begin());
             s.cap[t] = vv.capacity();
             s.size[t] = vv.size();
+            s.mc[t] = vv.memory_consumption();
             if (const Block* b = find_block(s.data_begin[t], true))
             {
                 s.block[t] = static_cast<long>(b->serial);
@@ -1283,7 +1307,7 @@ struct Engine
                 cit2 = cv.begin() + d;  // same-type assignment (const)
                 auto bad = [&](const char* what)
                 {
-                    report("C11", "iterator", std::string("reassigned-iterator:") + what,
+                    report("C04,C11", "iterator", std::string("reassigned-iterator:") + what,
                            "an iterator obtained before %s and assigned begin()+%zu afterwards: %s", OP_NAMES[last.k], j, what);
                 };
                 if (!(it == vv.begin() + d) || !(cit == cv.begin() + d) || !(cit2 == cv.begin() + d)) bad("compares unequal to begin()+i");
@@ -1307,7 +1331,7 @@ struct Engine
     // C16 (+ the "does nothing at all" clause of C10): evaluated right after apply()
     void transition_monitors(const Snap& pre, const Op& o)
     {
-        if (prm.on("C11")) reassigned_iterator_monitors();
+        if (prm.on("C11") || prm.on("C04")) reassigned_iterator_monitors();
         if (last_failed && (o.k == O_RS || o.k == O_CC) && !pre.canon.empty())
         {
             // C17: reserve and copy construction leave the source completely unchanged when an allocation fails
@@ -1403,6 +1427,18 @@ struct Engine
                     no_alloc("swap");
                     same_objects(o.a[0], o.a[1], SIZE_MAX, "swap");
                     same_objects(o.a[1], o.a[0], SIZE_MAX, "swap");
+                    // ownership is exchanged completely: block, capacity and the size the block is accounted with
+                    for (int a = 0; a < 2; ++a)
+                    {
+                        const int b = 1 - a;
+                        if (post.block[a] != pre.block[b])
+                            report("C16", "stability", "swap:block-not-exchanged", "after swap vector %d does not own the block vector %d owned", a, b);
+                        if (post.cap[a] != pre.cap[b])
+                            report("C16", "stability", "swap:capacity-not-exchanged", "after swap capacity() == %zu, the other vector had %zu", post.cap[a], pre.cap[b]);
+                        if (post.mc[a] != pre.mc[b])
+                            report("C16", "stability", "swap:memory_consumption-not-exchanged",
+                                   "after swap memory_consumption() == %zu, the other vector had %zu", post.mc[a], pre.mc[b]);
+                    }
                 }
                 break;
             case O_MC:
